@@ -46,6 +46,8 @@ type SwitchLabel uint16
 // NextRotateSwitchBlock extracts the next switch label and rotates the block
 // so it can be reversed by the destination.
 func NextRotateSwitchBlock(block []byte, returnLabel SwitchLabel) (nextHop SwitchLabel, err error) {
+	verifBefore := verifSwitchCopy(block)
+
 	// Read next hop varint switch label.
 	next, bytesRead := binary.Uvarint(block)
 	if bytesRead <= 0 {
@@ -92,12 +94,16 @@ blockScan:
 
 	// fmt.Printf("new block: %+v\n", block)
 
+	verifSwitchRotate(verifBefore, block, returnLabel, SwitchLabel(next))
 	return SwitchLabel(next), nil
 }
 
 // TransformToReturnBlock transform the given block to a return block that
 // takes the exact route it came from.
 func TransformToReturnBlock(block []byte) {
+	verifBefore := verifSwitchCopy(block)
+	defer func() { verifSwitchReverse(verifBefore, block) }()
+
 	// Reverse the full slice.
 	slices.Reverse[[]byte, byte](block)
 	// Pull data to front to remove leading zeros.
@@ -123,6 +129,7 @@ func (sp *SwitchPath) BuildBlocks() error {
 
 	blockSize, err := sp.CalculateBlockSize()
 	if err != nil {
+		verifSwitchBuild(sp, err)
 		return err
 	}
 
@@ -146,6 +153,7 @@ func (sp *SwitchPath) BuildBlocks() error {
 		index += written
 	}
 
+	verifSwitchBuild(sp, nil)
 	return nil
 }
 
